@@ -16,6 +16,8 @@ pub enum Kind {
     /// a collection is forced while indexing workers, the compressor thread, merge threads or the caller
     /// are between two storage operations of add / delete / commit / merge
     GcVsWriters { flush_after: Option<u32>, workers: usize, compressor: bool },
+    /// the same on an index sorted by a fast field (segments are written through a temporary doc store)
+    GcVsSortedWriters { flush_after: Option<u32> },
     /// a reader reload (second Index handle or the writer's own) is preempted between two of its storage
     /// operations by writer-side activity
     ReloadVsWriter { second_handle: bool, action: usize },
@@ -103,7 +105,10 @@ pub fn reload_actions() -> Vec<Vec<Step>> {
 }
 
 pub fn scenarios(thorough: bool) -> Vec<Kind> {
-    let mut v = vec![Kind::GcVsWriters { flush_after: None, workers: 1, compressor: false }, Kind::GcVsWriters { flush_after: Some(1), workers: 1, compressor: false }];
+    let mut v = vec![Kind::GcVsWriters { flush_after: None, workers: 1, compressor: false }, Kind::GcVsWriters { flush_after: Some(1), workers: 1, compressor: false }, Kind::GcVsSortedWriters { flush_after: None }];
+    if thorough {
+        v.push(Kind::GcVsSortedWriters { flush_after: Some(2) });
+    }
     for second_handle in [true, false] {
         for action in 0..reload_actions().len() {
             v.push(Kind::ReloadVsWriter { second_handle, action });
@@ -229,6 +234,12 @@ pub fn run(kind: &Kind, point: Option<&Point>) -> RunResult {
     crate::presched::reset_points();
     match kind {
         Kind::GcVsWriters { flush_after, workers, compressor } => gc_vs_writers(*flush_after, *workers, *compressor, point),
+        Kind::GcVsSortedWriters { flush_after } => {
+            SORTED.store(true, std::sync::atomic::Ordering::SeqCst);
+            let r = gc_vs_writers(*flush_after, 1, false, point);
+            SORTED.store(false, std::sync::atomic::Ordering::SeqCst);
+            r
+        }
         Kind::ReloadVsWriter { second_handle, action } => reload_vs_writer(*second_handle, *action, point),
         Kind::MergeVsRestart { action } => merge_vs_restart(*action, point),
         Kind::OverlappingMerges { combo } => overlapping_merges(*combo, point),
@@ -988,7 +999,7 @@ pub fn points(kind: &Kind, ranges: &BTreeMap<String, (usize, usize)>) -> Vec<Poi
         let eligible = match kind {
             // the collection runs on the updater thread: requested in front of one of the updater's own
             // operations it waits (park limit) and runs right after the current task, with whatever it captured
-            Kind::GcVsWriters { .. } => tid != "P",
+            Kind::GcVsWriters { .. } | Kind::GcVsSortedWriters { .. } => tid != "P",
             Kind::ReloadVsWriter { .. } => tid == "R",
             Kind::MergeVsRestart { .. } | Kind::MergeVsOps { .. } => tid.starts_with('M') || tid == "U",
             Kind::OverlappingMerges { .. } => false,
